@@ -125,6 +125,9 @@ func suiteCuckoo(c *Ctx) {
 	// to each other, can be read in two ways: bucket 1 slot 12 / bucket 11 slot 2)
 	cuckooCase(c, cuckooCfg{n: 12, b: 13, fpl: 3, retries: 500, redis: true})
 	cuckooCase(c, cuckooCfg{n: 12, b: 13, fpl: 3, retries: 500, redis: false})
+	cuckooFullRollback(c, 12, 13, true)
+	cuckooFullRollback(c, 12, 13, false)
+	cuckooFullRollback(c, 16, 11, true)
 	cuckooInvalidFpProbe(c)
 	cuckooHugeBucket(c)
 }
@@ -624,3 +627,69 @@ func bagCount(d cuckooDoc, e []byte, n, fpl uint64) int {
 }
 
 var _ = sort.Ints
+
+// cuckooFullRollback: a completely full filter (loaded through Import) and non-destructive inserts
+// that must fail after a LONG eviction walk (500 retries: most cells are visited, many of them
+// twice): every one of them leaves the filter exactly as it was (C14), whatever the geometry.
+func cuckooFullRollback(c *Ctx, n, b uint64, redis bool) {
+	var bs []string
+	fp := 100
+	for i := uint64(0); i < n; i++ {
+		es := make([]string, b)
+		for j := range es {
+			es[j] = fmt.Sprintf("%03d", fp)
+			fp++
+			if fp > 999 {
+				fp = 100
+			}
+		}
+		bs = append(bs, fmt.Sprintf(`{"s":%d,"l":%d,"e":["%s"],"k":""}`, b, b, strings.Join(es, `","`)))
+	}
+	doc := []byte(fmt.Sprintf(`{"s":%d,"bs":%d,"fpl":3,"l":%d,"r":500,"b":[%s],"k":"","mk":""}`, n, b, n*b, strings.Join(bs, ",")))
+	var h cuckooHandle
+	if redis {
+		f, err := gostatix.NewCuckooFilterRedisWithRetries(2, 2, 3, 500)
+		if err != nil || f.Import(doc, true) != nil {
+			return
+		}
+		h = cuckooRedis{f}
+	} else {
+		f := gostatix.NewCuckooFilterWithRetries(2, 2, 3, 500)
+		if f.Import(doc) != nil {
+			return
+		}
+		h = cuckooMem{f}
+	}
+	if h.Length() != n*b {
+		return
+	}
+	c.rep.Cases++
+	cfg := fmt.Sprintf("cuckoo(n=%d,b=%d,fpl=3,retries=500,redis=%v), completely full", n, b, redis)
+	before, err := h.Export()
+	if err != nil {
+		return
+	}
+	for try := 0; try < 4; try++ {
+		e := []byte(fmt.Sprintf("one-too-many-%d-%d", c.seed, try))
+		if _, _, _, ok := cuckooPos(e, n, 3); !ok {
+			continue
+		}
+		rand.Seed(c.rng.Int63())
+		ok := false
+		res := safely(func() { ok = h.Insert(e, false) })
+		c.op("Insert.full-filter")
+		if !res.panicked && ok {
+			c.fail([]string{"C14", "C13"}, "cuckoo-insert-into-full-succeeds", cfg+": Insert into a completely full filter reported success", cfg)
+			return
+		}
+		after, _ := h.Export()
+		da, _ := parseCuckoo(after, nil)
+		db, _ := parseCuckoo(before, nil)
+		if da.bucketsStr() != db.bucketsStr() || h.Length() != n*b {
+			c.fail([]string{"C14", "C02"}, "cuckoo-rollback-inexact", fmt.Sprintf("%s: failed non-destructive Insert changed the filter (Length %d)", cfg, h.Length()),
+				map[string]interface{}{"config": cfg, "before": db.bucketsStr(), "after": da.bucketsStr()})
+			return
+		}
+	}
+	c.branch("full-filter-rollback")
+}
